@@ -3,6 +3,7 @@ C13 — number ⇄ text conversion.  Property theorems only (model: Strtod/Model
 Strtod/ScanLemmas.lean, Strtod/Extract.lean).
 -/
 import JanetModel.Strtod.ScanLemmas
+import JanetModel.Strtod.Extract
 
 namespace JanetModel.Props.C13
 open JanetModel.Strtod JanetModel.Gen.Strtod
@@ -68,6 +69,76 @@ theorem msd_nonzero (str : List Nat) (base0 : Nat) (hb : base0 ≤ 36) (p : Pars
     simpa using this
   rw [hrev, TopNZ_append_singleton] at ht
   exact ht
+
+/-! ### `bignat_extract` rounds faithfully -/
+
+/-- ★ `extract_faithful`, integers (exponent e ≥ 0), for every accepted literal with non-zero mantissa: with
+    (t, e2) = what `bignat_extract` passes to `ldexp`, either the value fits one digit and is passed exactly, or
+    2^52 ≤ t < 2^53 and `t·2^e2` is the floor or — only if the value is not on that grid — the ceiling of the exact value
+    `mant·base^e` on the grid 2^e2: one of its two grid neighbours, the value itself when it is on the grid
+    (`FaithfulN t N D`: t = ⌊N/D⌋ ∨ (t = ⌊N/D⌋+1 ∧ D ∤ N); both sides are scaled by 2^31 so that G = e2+31 ∈ ℕ). -/
+theorem extract_faithful_int (str : List Nat) (base0 : Nat) (hb : base0 ≤ 36) (p : Parsed)
+    (h : parseNumber str base0 = some p) (e : Nat) :
+    let s := scale p.mant p.base (e : Int)
+    let r := extractParts s.1 s.2
+    (s.1.digits = [] ∧ r = (p.mant.val * p.base ^ e, 0)) ∨
+    (∃ G : Nat, r.2 + 31 = (G : Int) ∧ FaithfulN r.1 (p.mant.val * p.base ^ e * 2 ^ 31) (2 ^ G) ∧
+      2 ^ 52 ≤ r.1 ∧ r.1 < 2 ^ 53) := by
+  obtain ⟨hi, h1, h36⟩ := parseNumber_inv str base0 hb p h
+  simp only
+  rw [scale_pos_eq]
+  obtain ⟨hi', hv⟩ := scalePos_facts p.mant p.base e h1 h36 hi
+  by_cases hd : (scalePos p.mant p.base e).digits = []
+  · left
+    refine ⟨hd, ?_⟩
+    simp only [extractParts, hd, List.reverse_nil]
+    rw [← hv, BigNat.val, hd]; simp [digitsVal]
+  · right
+    rw [← hv]
+    exact extract_faithful_pos_core _ hi' hd
+
+/-- ★ `extract_faithful`, fractions (exponent −a < 0), for every accepted literal with non-zero mantissa: with
+    (t, e2) = what `bignat_extract` passes to `ldexp`, 2^52 ≤ t < 2^53 and `t·2^e2` is the floor or — only if the value is
+    not on that grid — the ceiling of the exact value `mant / base^a` on the grid 2^e2
+    (both scaled by 2^(31·(shamt−2)) so that G = e2 + 31·(shamt−2) ∈ ℕ; shamt = 5 + a/4). -/
+theorem extract_faithful_frac (str : List Nat) (base0 : Nat) (hb : base0 ≤ 36) (p : Parsed)
+    (h : parseNumber str base0 = some p) (hnz : ¬ (p.mant.digits.length = 0 ∧ p.mant.first = 0)) (a : Nat) (ha : 0 < a) :
+    let s := scale p.mant p.base (-(a : Int))
+    let r := extractParts s.1 s.2
+    ∃ G : Nat, r.2 + 31 * ((shamtBase + a / shamtDiv - 2 : Nat) : Int) = (G : Int) ∧
+      FaithfulN r.1 (p.mant.val * bigBase ^ (shamtBase + a / shamtDiv - 2)) (p.base ^ a * 2 ^ G) ∧
+      2 ^ 52 ≤ r.1 ∧ r.1 < 2 ^ 53 := by
+  obtain ⟨hi, h1, h36⟩ := parseNumber_inv str base0 hb p h
+  have hnz' : p.mant.digits = [] → p.mant.first ≠ 0 := by intro hd hf; exact hnz ⟨by simp [hd], hf⟩
+  have hv := val_pos_of_nonzero p.mant hi hnz
+  simp only
+  rw [scale_neg_eq _ _ _ ha]
+  obtain ⟨hl, hn, hu⟩ := scaleNeg_facts p.mant p.base a h1 h36 hi hnz'
+  have hlen := scaleNeg_length p.mant p.base a h1 h36 hi hnz' hv
+  have htop := scaleNeg_topnz p.mant p.base a h1 h36 hi hnz' hv
+  have hfirst : (scaleNeg p.mant p.base a).first < bigBase := scaleNeg_first_lt p.mant p.base a h1 h36 hi
+  obtain ⟨G, he, hF, hlo, hhi⟩ := extract_faithful_neg_core (scaleNeg p.mant p.base a)
+    (-(((shamtBase + a / shamtDiv) * nbit : Nat) : Int)) _ _ (Nat.pow_pos h1) hfirst hl htop hlen hu
+  refine ⟨G, ?_, hF, hlo, hhi⟩
+  rw [he]
+  have h2 : 2 ≤ shamtBase + a / shamtDiv := le_trans (by decide : 2 ≤ shamtBase) (Nat.le_add_right _ _)
+  generalize shamtBase + a / shamtDiv = S at *
+  obtain ⟨S', rfl⟩ : ∃ S', S = S' + 2 := ⟨S - 2, by omega⟩
+  have hk : (((S' + 2) * nbit : Nat) : Int) = 31 * (S' : Int) + 62 := by
+    have : nbit = 31 := rfl
+    rw [this]; push_cast; ring
+  rw [hk]
+  simp only [Nat.add_sub_cancel]
+  omega
+
+/-- ★ `exact_when_representable`: whenever the exact value lies on the 53-bit grid chosen by `bignat_extract`
+    (i.e. is representable with the exponent of its binade), the significand handed to `ldexp` is exactly the value. -/
+theorem exact_when_representable (t N D : Nat) (h : FaithfulN t N D) (hrep : N % D = 0) : t * D = N :=
+  h.exact hrep
+
+/-- never off by one grid step (one ulp): |t·D − N| < D -/
+theorem within_one_ulp (t N D : Nat) (hD : 0 < D) (h : FaithfulN t N D) : t * D < N + D ∧ N < t * D + D :=
+  h.within hD
 
 /-! ### the size estimate used by the short-circuits of `convert` -/
 
